@@ -366,7 +366,7 @@ def string_oracle(onmatch, latch, onchange, notnone, asbool, nocontrib, cur, yi,
     "and every other text as True",
     outside="other texts",
     encodes=ENC + ["csvpath/matching/util/expression_utility.py:ExpressionUtility.asbool"],
-    tiers={"quick": {"timeout": 900, "shards": product(onmatch=[False, True], asbool=[False, True])}},
+    tiers={"quick": {"timeout": 900, "shards": product(onmatch=[False, True], asbool=[False, True], latch=[False, True], notnone=[False, True])}},
 )
 def string_step(onmatch: bool, latch: bool, onchange: bool, notnone: bool, asbool: bool, nocontrib: bool, cur: int, yi: int, m: bool) -> Tuple[Optional[str], bool]:
     p, pr, eq = build(TEXT, [onmatch, latch, onchange, False, False, notnone, asbool, nocontrib])
